@@ -138,19 +138,29 @@ func init() {
 			sep := lenSeps[r.Intn(len(lenSeps))]
 			tail := lenTails[r.Intn(len(lenTails))]
 			texts := []string{S, S + sep.s + tail.s, S + sep.s, S[:r.Intn(len(S)+1)]}
+			mutated := -1
+			var mutChar byte
 			if len(S) > 1 {
 				b := []byte(S)
-				b[r.Intn(len(b))] = interesting[r.Intn(len(interesting))]
+				mutChar = interesting[r.Intn(len(interesting))]
+				b[r.Intn(len(b))] = mutChar
+				mutated = len(texts)
 				texts = append(texts, string(b)+sep.s+tail.s)
 			}
 			th := make([]tokH, len(toks))
 			for j, t := range toks {
 				th[j] = tokH{C: t.C, H: t.S, N: t.N}
 			}
-			for _, t := range texts {
+			for ti, t := range texts {
 				logJ("json", "json", t)
+				if ti == mutated && (mutChar == 'e' || mutChar == 'E') {
+					continue // the mutation may have produced an exponent, which the schema notation refuses: outside the common language
+				}
 				if !g.exp && !strings.ContainsAny(t, "/#@|") {
 					logJ("schemaj", "schema", t)
+					if ti == mutated && !strings.HasPrefix(strings.TrimLeft(t, " \t\r\n"), "[") {
+						continue // an enum rule is an array: the mutated text is no enum any more
+					}
 					if isScalarArray(th) && distinctItems(th, func(t tokH) string { return t.H }) {
 						logJ("enumj", "enum", t)
 					}
